@@ -13,6 +13,10 @@ set of committees a draw can return (`…Valid` predicates), not the distributio
 FA1 seat allocation follows the code *as repaired* (fix D18): `floor(stake·k/total)` in integers.
 The pinned snapshot computed it in `f64` (`(stake as f64 / total as f64 * k as f64).floor()`), which
 under-allocates (e.g. 29/100, k = 100 → 28) and can over-allocate (then `Stake` underflows).
+
+`PartitionSampler::new` follows the code *as repaired* (fix D8): `stake · num_bins` units per validator,
+bins of exactly `total` units.  The pinned snapshot filled bins of `⌈total/num_bins⌉` stake and left
+trailing bins empty (→ panic) whenever `total ≤ (num_bins-1)·⌈total/num_bins⌉`: kept as `partitionOld`.
 -/
 namespace AgModel.Sampler
 
@@ -73,7 +77,8 @@ structure PState where
   curStake : Nat
 deriving Repr
 
-/-- the `while stake > 0` loop of `PartitionSampler::new` for one validator. -/
+/-- the `while units > 0` loop of `PartitionSampler::new` for one validator (`spb` = capacity of a
+    bin, `stake` = what the validator still has to place; both in the same unit). -/
 def placeOne (spb numBins : Nat) : Nat → PState → Nat → Nat → PState
   | 0, st, _, _ => st
   | fuel + 1, st, id, stake =>
@@ -97,20 +102,39 @@ def placeAll (spb numBins : Nat) (weights : List Nat) : PState → List Nat → 
 def binsOf (numBins : Nat) (st : PState) : List (List (Nat × Nat)) :=
   (st.cur.reverse :: st.done).reverse ++ List.replicate (numBins - st.curIdx - 1) []
 
-/-- `PartitionSampler::new(validators, num_bins)` where `order` is the (fixed-seed) shuffled order of
-    the validators with non-zero weight.  `none` = the `expect` on `WeightedIndex::new` of an empty
-    bin (D8). -/
-def partition (weights : List Nat) (order : List Nat) (numBins : Nat) : Option (List (List (Nat × Nat))) :=
+/-- The pinned snapshot's `PartitionSampler::new` (before fix D8): bins of `⌈total/num_bins⌉` stake
+    filled front to back.  `none` = the `expect` on `WeightedIndex::new` of an empty trailing bin. -/
+def partitionOld (weights : List Nat) (order : List Nat) (numBins : Nat) : Option (List (List (Nat × Nat))) :=
   if numBins = 0 then some []
   else
     let spb := divCeil (total weights) numBins
     let bins := binsOf numBins (placeAll spb numBins weights ⟨[], [], 0, 0⟩ order)
     if bins.any (·.isEmpty) then none else some bins
 
-/-- order-independent characterisation of the D8 panic: some trailing bin stays empty iff the total
-    does not reach into the last bin. -/
+/-- order-independent characterisation of the D8 panic of `partitionOld`: some trailing bin stays
+    empty iff the total does not reach into the last bin. -/
 def partitionDegenerate (weights : List Nat) (numBins : Nat) : Bool :=
   numBins ≠ 0 && decide (total weights ≤ (numBins - 1) * divCeil (total weights) numBins)
+
+/-- `u128::from(v.stake) * num_bins`: the units (of `1/num_bins` stake) every validator contributes. -/
+def unitsOf (weights : List Nat) (numBins : Nat) : List Nat := weights.map (· * numBins)
+
+/-- `PartitionSampler::new(validators, num_bins)` *as repaired* (fix D8) where `order` is the
+    (fixed-seed) shuffled order of the validators with non-zero weight: the same front-to-back loop,
+    run on `stake · num_bins` units per validator with bins of exactly `total` units.  The entries are
+    `(validator, units taken)`.  `none` = the `expect` on `WeightedIndex::new` of an empty bin (only
+    reachable with total stake 0: `Props.C17.partition_total`). -/
+def partition (weights : List Nat) (order : List Nat) (numBins : Nat) : Option (List (List (Nat × Nat))) :=
+  if numBins = 0 then some []
+  else
+    let bins := binsOf numBins (placeAll (total weights) numBins (unitsOf weights numBins) ⟨[], [], 0, 0⟩ order)
+    if bins.any (·.isEmpty) then none else some bins
+
+/-- sum of the weights of a bin. -/
+def binSum (b : List (Nat × Nat)) : Nat := (b.map (·.2)).sum
+
+/-- units of validator `v` inside one bin. -/
+def unitsIn (v : Nat) (b : List (Nat × Nat)) : Nat := ((b.filter (·.1 == v)).map (·.2)).sum
 
 /-- the order handed to `partition` lists exactly the validators of non-zero weight, once each. -/
 def orderOk (weights : List Nat) (order : List Nat) : Bool :=
